@@ -19,7 +19,7 @@ PROP = {'rule': 'history: rapid state machine (create / createSpecial(root,syste
  'units': [{'name': 'webhook',
             'pkg': 'pkg/webhook/elasticquota',
             'files': ['C15/c15_quota_tree_test.go'],
-            'tests': [{'run': 'TestVerifC15History', 'quick': 3000, 'thorough': 10000, 'steps': 14, 'quick_shards': 2},
+            'tests': [{'run': 'TestVerifC15History', 'quick': 6000, 'thorough': 25000, 'steps': 20, 'quick_shards': 3, 'shrinktime': '15s'},
                       {'run': 'TestVerifC15Exhaustive', 'rapid': False, 'shards': 12, 'env': {'VERIF_C15_SHARDS': '12'},
                        'timeout_quick': 300, 'timeout_thorough': 1500}]}],
  'manifest': {'technique': 'property-based testing (rapid): model-based state machine over admission request histories with an independent '
